@@ -614,9 +614,13 @@ class CollapseAmbiguities(Transformer):
 
     """
     def _ambig(self, options):
-        return sum(options, [])
+        # An alternative that is not a tree or token (e.g. a None placeholder) is not transformed into a list
+        return sum([o if isinstance(o, list) else [o] for o in options], [])
 
     def __default__(self, data, children_lists, meta):
+        # Children that are neither trees nor tokens (e.g. None placeholders) are left as they are
+        # by the transformer, so they have exactly one alternative: themselves.
+        children_lists = [c if isinstance(c, list) else [c] for c in children_lists]
         return [Tree(data, children, meta) for children in combine_alternatives(children_lists)]
 
     def __default_token__(self, t):
